@@ -22,6 +22,7 @@ type Outcome struct {
 	Env     map[string]Value // top frame only: source-level variables at return
 	EnvAddr map[string]bool
 	CallRes map[string][]Value
+	CallArgs map[string][]Value
 }
 
 type deferred struct {
@@ -73,6 +74,7 @@ type Frame struct {
 	nopanic  bool
 	results  []Value // named results at Recover
 	callRes  map[string][]Value // results of contract-applied calls, key "<callee>#<n>"
+	callArgs map[string][]Value
 }
 
 func (fr *Frame) clone() *Frame {
@@ -98,6 +100,10 @@ func (fr *Frame) clone() *Frame {
 	n.callRes = make(map[string][]Value, len(fr.callRes))
 	for k, v := range fr.callRes {
 		n.callRes[k] = v
+	}
+	n.callArgs = make(map[string][]Value, len(fr.callArgs))
+	for k, v := range fr.callArgs {
+		n.callArgs[k] = v
 	}
 	return &n
 }
@@ -745,7 +751,8 @@ func (fr *Frame) finish(st *State, res []Value) {
 		for k, v := range fr.envAddr {
 			o.EnvAddr[k] = v
 		}
-		o.CallRes = fr.callRes
+		o.CallRes = st.callRes
+		o.CallArgs = st.callArgs
 	}
 	*fr.out = append(*fr.out, o)
 	if len(*fr.out) > maxPaths {
